@@ -3,7 +3,7 @@ use crate::c02::emf::*;
 use crate::common::{Ctx, Out, Rng};
 use crate::sx::{self, Sx};
 
-fn catalogue(rng: &mut Rng, cfg: &Config, big: bool) -> Call {
+pub fn catalogue(rng: &mut Rng, cfg: &Config, big: bool) -> Call {
     let mut items = match rng.below(10) {
         0..=3 => gen_items(rng, cfg, &GenOpts { defects: 0, allow_scripts: false, allow_split: true }),
         4..=6 => gen_items(rng, cfg, &GenOpts { defects: 6, allow_scripts: false, allow_split: true }),
